@@ -20,15 +20,18 @@ CHECKS = {
              "everything observable read back after every step, over in-memory / application lower level / mossStore x CachePersisted x DeferredSort x MinMergePercentage x compaction concern.",
              technique=T, ref="6/C01"),
  "C02": dict(text="Behaviours with TakeSnapshot at arbitrary states; every held snapshot (with child snapshots and a full iteration) is re-read after every later batch, merger and "
-             "persister step, forced compaction that unlinks its data file, Close and reopen, and must equal the content TLC froze when it was taken.",
+             "persister step, forced and partial compaction, Close and reopen, and must equal the content TLC froze when it was taken; in addition a store snapshot taken after every persistence round "
+             "and a collection snapshot taken whenever nothing is dirty are held across the next round and re-read with backward seeks after every step (rolling snapshots).",
              technique=T, ref="6/C02"),
  "C04": dict(text="TLC checks MossColl!StoreIsPrefix (what the lower level holds is the reference after a prefix of the batches) with Close and Reopen actions; behaviours with up to two "
-             "close/reopen cycles are replayed store-backed; reopened content must be the full reference when the model says persistence had caught up, a prefix otherwise.",
+             "close/reopen cycles are replayed store-backed (append-only, forced full compaction, and dimensions under which the store's own policy takes partial compactions, counted in the evidence); "
+             "reopened content must be the full reference when the model says persistence had caught up, a prefix otherwise; a persistence round that fails or a hand-off the model forbids is a conformance violation.",
              technique=T, ref="6/C04"),
  "C08": dict(text="Set/Del/Merge behaviours with the non-commutative append operator; the code-shaped evaluation (segmentStack.get chain, mergeInto with tail copy, base and captured lower level) "
              "is checked against the fold on the bounded model and every read path of the implementation is compared at every step (memory, application lower level, mossStore, compaction, reopen, CachePersisted, child collection).",
              technique=T, ref="6/C08"),
- "C10": dict(text="TLC checks MossColl!DirectGetAgrees; replays compare Collection.Get, Snapshot.Get and the iteration entry for every key of the universe after every step, with and without NoCopyValue; "
+ "C10": dict(text="TLC checks MossColl!DirectGetAgrees and CachedMemIsMem (the cached snapshot reads the in-memory sections as Collection.Get does); replays compare Collection.Get, Snapshot.Get and the iteration entry for every "
+             "key of the universe after every step, with and without NoCopyValue and with SkipLowerLevel (against MossColl!MemView shipped with every step); "
              "lead behaviours of the historical chain-on-nil deviation are replayed as regression cases.",
              technique=T, ref="6/C10"),
  "C11": dict(text="Behaviours over a tree of child names (create, child-only batch, delete, recreate, nested) with incarnation numbers modelled as the code keeps them; names and content of every "
@@ -38,7 +41,9 @@ CHECKS = {
              "equal the reference after a prefix and, overlaid with the unpersisted sections, the full reference.",
              technique=T, ref="6/C13"),
  "C19": dict(text="The MossColl data-path behaviours replayed under seeded adversarial concretisations of the abstract keys and values (empty key, 0x00/0xFF bytes, magic-like bytes, shared prefixes, empty values) "
-             "through memory, merging, persistence, compaction and reopen; class-based exploration of the input dimension.",
+             "through memory, merging, persistence, compaction and reopen; batches built plain, with Alloc/AllocSet/AllocDel/AllocMerge, mixed, in ascending and descending key order; "
+             "batches with rejected oversize operations (MossColl op kinds xk, xv: ErrKeyTooLarge / ErrValueTooLarge must leave the rest of the batch alone); the longest accepted key (2^24-1 bytes) "
+             "and, in the thorough tier, the longest accepted value (2^28-1 bytes); class-based exploration of the input dimension.",
              technique=T, ref="6/C19"),
  "C20": dict(text="TLC checks MossColl!GaugesZeroImpliesPersisted with Stats modelled as the code computes it; replays sample Stats() after every step and compare the lower level's own snapshot "
              "with the reference whenever all dirty gauges are zero (one open finding: structure-only batches).",
@@ -47,17 +52,19 @@ CHECKS = {
 
 TS = "TLA+ model checking (TLC on MossStore) + replay of TLC-generated behaviours (rounds, I/O failures, crash images, history walks, read-only opens) into the real store"
 STORE_NOTE = ("Trusted: TLC + CommunityModules Json; the File wrapper handed to StoreOptions.OpenFile forwards to *os.File; the crash model is the property's "
-              "(records lost from the unsynced tail, last one torn at byte classes); content in MossStore is abstract (batch numbers), key-level semantics "
+              "(any subset of the un-synced records of a file lost, the last write torn at byte classes; at record, not page, granularity); content in MossStore is abstract (batch numbers), key-level semantics "
               "of persisted data is decided by the store-backed MossColl replays; expected values are computed by TLC.")
 CHECKS.update({
  "C05": dict(text="TLC checks MossStore (every file operation one action, Crash anywhere, Recover = openStore/ScanFooter) for RecoverIsPrefix/AtLeastSynced/OpenNeverFails; TLC-chosen crash points and "
-             "disk images are materialised from the writes the implementation really issued (every tear offset class per record kind), reopened with the real OpenStore and compared.",
+             "disk images (per file any subset of the un-synced records lost, the last write torn) are checked for legality against the recorded syncs, materialised from the writes the implementation really issued "
+             "(every tear offset class per record kind), reopened with the real OpenStore and compared; images of the deviation NoSyncBeforeFooter are legal only on a tree that does not sync before the footer.",
              technique=TS, ref="6/C05", engine="mossstore", note=STORE_NOTE),
  "C06": dict(text="TLC checks PublishedFooterReadable/CurrentFileExists with IOFail at every file operation; each abstract failing step is expanded into its concrete operations and error kinds "
              "(error, short write, stat error) on the recorded File; store content, a reopened copy of the directory, OnError/Persist errors and catch-up are compared.",
              technique=TS, ref="6/C06", engine="mossstore", note=STORE_NOTE),
  "C07": dict(text="TLC checks CompactionPreservesContent/FullCompactionShape/OldFilesGoAway over every splice point (policy is a parameter of the spec); forced full compactions and appends are replayed, "
-             "content before/after, footer shape (segments, deletion markers, duplicates) and the directory listing are compared; partial compaction policies are swept by the store-backed MossColl replays (C01/C04/C11).",
+             "content before/after, footer shape (segments, deletion markers, duplicates) and the directory listing are compared; partial compactions at the splice points the store's own policy chooses are taken by "
+             "store-backed MossColl replays (overwrites, deletions, a child collection, preloaded large segment, reopen) under small level parameters, sized values and CompactionPercentage 1.0; the evidence counts them.",
              technique=TS, ref="6/C07", engine="mossstore", note=STORE_NOTE),
  "C12": dict(text="TLC checks HistoryDescends/HistoryReadable; behaviours with SnapshotPrevious walks to every depth, SnapshotRevert to any footer of the walk, reopen and further rounds are replayed and "
              "the content at every position compared (store, collection, reopened copy of the directory).",
@@ -90,8 +97,9 @@ CHECKS.update({
              note="Trusted: TLC + Json (ndJsonDeserialize); hook events are emitted under the collection mutex after the change and numbered from one counter shared with the driver's call/return events; pushes are attributed to writers through the Batch object identity."),
  "C16": dict(text="MossSync (mutex, condition variables, waitDirtyIncomingCh, bounded ping channel with pongs; writers, merger, persister with failing lower level, notifiers, closer) is checked by TLC for "
              "TopBounded, deadlock freedom, ClosedIsFinal and, under weak fairness, that every call returns; the counterexample schedules of its named deviations are replayed with gates on the real "
-             "library; free-running runs with a closer, notifiers, slow/failing lower levels and MaxDirtyOps are recorded, watched for calls that do not return, and validated against TraceSync.",
-             technique="TLA+ model checking incl. liveness (TLC on MossSync) + gated replay of counterexample schedules + trace validation (TraceSync)", ref="6/C16", engine="mossconc",
+             "library; free-running runs with a closer, notifiers, slow/failing lower levels and MaxDirtyOps are recorded, watched for calls that do not return, and validated against TraceSync; "
+             "the repository's own tests are run with -tags verif and every hook event of every collection they create is validated against TraceHooks (section dynamics of MossColl, TopBounded at every event).",
+             technique="TLA+ model checking incl. liveness (TLC on MossSync) + gated replay of counterexample schedules + trace validation (TraceSync; TraceHooks over the repository's tests)", ref="6/C16", engine="mossconc",
              note="Trusted: TLC (liveness under weak fairness) + Json; the ping channel capacity is a spec constant (1 or 2) bound to the code's 10 in the gated scenario; a call counts as hanging after 3 s (gated) / 20 s (free-running) with a progressing lower level."),
 })
 
@@ -135,7 +143,7 @@ def main():
             {"name": "mossiter", "path": "bin/check_iter.py", "serves_properties": ["C09"], "kind_free_text": "TLC on specs/MossIter.tla + harness/cmd/iterreplay"},
             {"name": "mossindex", "path": "bin/check_index.py", "serves_properties": ["C14"], "kind_free_text": "TLC on specs/MossIndex.tla + harness/cmd/indexreplay"},
             {"name": "mossconc", "path": "bin/check_conc.py", "serves_properties": ["C03", "C16"],
-             "kind_free_text": "TLC on specs/MossVis.tla, MossSync.tla, TraceVis.tla, TraceSync.tla + harness/cmd/conc (recorded free-running executions) + harness/cmd/syncscen (gated counterexample schedules)"},
+             "kind_free_text": "TLC on specs/MossVis.tla, MossSync.tla, TraceVis.tla, TraceSync.tla, TraceHooks.tla + harness/cmd/conc (recorded free-running executions) + harness/cmd/syncscen (gated counterexample schedules)"},
             {"name": "mossstore", "path": "bin/check_store.py", "serves_properties": [p for p in ["C05","C06","C07","C12","C18"] if p in CHECKS],
              "kind_free_text": "TLC on specs/MossStore.tla (MCStore.tla) + harness/cmd/storereplay (rounds forced through Store.Persist options, fault injection and crash-image materialisation through the recorded File)"},
         ],
